@@ -232,7 +232,15 @@ class MPS(DNAS):
         :return: the precision-assignement found by the NAS
         :rtype: Dict[str, Dict[str, Any]]
         """
+        # conversion traces the seed in eval mode: remember and restore the training status
+        # and the currently sampled coefficients
+        training_status = {m: m.training for m in self.seed.modules()}
+        sampled = {m: m.theta_alpha for m in self.seed.modules() if hasattr(m, 'theta_alpha')}
         mod, _, _ = convert(self.seed, self._input_example, 'export')
+        for m, status in training_status.items():
+            m.training = status
+        for m, theta_alpha in sampled.items():
+            m.theta_alpha = theta_alpha
         return mod
 
     def summary(self) -> Dict[str, Dict[str, Any]]:
